@@ -58,6 +58,11 @@ def op_pool(ctx, lays):
             ops.append({"kind": "parse", "f": frame(l["cls"], l["id"], P[:rng.randrange(1, len(P))]).hex(), "mode": l["m"], "pbf": pbf})
         # payload longer than the definition (trailing bytes after the last field / a ragged last group item)
         ops.append({"kind": "parse", "f": frame(l["cls"], l["id"], P + rng.randbytes(rng.randrange(1, 4))).hex(), "mode": l["m"], "pbf": pbf})
+        # the same message as other firmware generations send it: 4 / 8 bytes shorter or longer
+        for d in (-8, -4, 4, 8):
+            Q = P[:d] if d < 0 else P + bytes(d)
+            if len(Q) > 0 and len(ops) % 3 == 0:
+                ops.append({"kind": "parse", "f": frame(l["cls"], l["id"], Q).hex(), "mode": l["m"], "pbf": pbf})
         # wrong mode
         ops.append({"kind": "parse", "f": f.hex(), "mode": (l["m"] + 1) % 3, "pbf": pbf})
         if l["m"] in (1, 2):
@@ -202,8 +207,13 @@ def run(ctx):
         for l in lays:
             if not l["reachable"] or l["c"] != 1 or not l["pbf"]:
                 continue
-            P = walk.fill(l, "count", rng, cfgdb)
-            allops.append(((l["cls"], l["id"], l["m"]), {"kind": "parse", "f": frame(l["cls"], l["id"], P).hex(), "mode": l["m"], "pbf": 1}))
+            for pat in ("count", "rand", "small"):
+                P = walk.fill(l, pat, rng, cfgdb)
+                allops.append(((l["cls"], l["id"], l["m"]), {"kind": "parse", "f": frame(l["cls"], l["id"], P).hex(), "mode": l["m"], "pbf": 1}))
+            if l["len"] is not None and l["len"] > 8:
+                for d in (-8, 8):  # other firmware generations: shorter / longer
+                    Q = P[:d] if d < 0 else P + bytes(d)
+                    allops.append(((l["cls"], l["id"], l["m"]), {"kind": "parse", "f": frame(l["cls"], l["id"], Q).hex(), "mode": l["m"], "pbf": 1}))
         extra = [o for o in ops if o["kind"] == "construct" and len(o["kwargs"]) <= 2] + [o for o in ops if o["kind"] == "parse" and len(o["f"]) <= 40]
         for o in extra[:60]:
             allops.append(((o.get("cls", 0), o.get("id", 0), o.get("mode", 0)), o))
